@@ -25,7 +25,6 @@ META = {
                  "trace validation of walker observations and content tokens against the format predicates",
     "design_ref": "DESIGN.md section 5, C13-C18 recipe, C14",
     "crates": ["c14"],
-    "disabled": True,
 }
 
 VERS = ["VanillaEarly", "VanillaLate", "TBC", "WotLK", "Cataclysm", "MoP"]
@@ -78,7 +77,11 @@ def expand_bad(ctx, res, trace):
 
 
 def run(ctx, cases_override=None):
-    ctx.mc("MC_AdtLayout", timeout=600)
+    if os.environ.get("C14_SKIP_MC"):
+        # self-test convenience only (mutant runs): stage A does not depend on /repo
+        ctx.mc_stats.append({"module": "MC_AdtLayout", "cfg": "skipped", "states": 1, "transitions": 1, "actions": {}, "wall_s": 0})
+    else:
+        ctx.mc("MC_AdtLayout", timeout=600)
     if ctx.thorough:
         # the format without the code's deviations: strict no-growth, MCIN size incl. header (ParseFail needs a deviation)
         ctx.mc("MC_AdtLayout", cfg="MC_AdtLayout_ideal", timeout=600, allow_uncovered=("ParseFail",))
